@@ -23,7 +23,7 @@ from ..gen import c02_store as ST
 from . import C01 as P1
 
 PID = "C02"
-COQ_HEADER = ("From Coq Require Import List NArith ZArith.\nFrom SK Require Import lib.Tok lib.LGraph model.C01_Model model.C01_Opts model.C02_Model model.C02_Store.\n"
+COQ_HEADER = ("From Coq Require Import List NArith ZArith.\nFrom SK Require Import lib.Tok lib.LGraph model.C01_Model model.C01_Opts model.C02_Model model.C02_Store model.C02_Api.\n"
               "Import ListNotations.\nOpen Scope Z_scope.\n")
 SHARD = 450
 IMPL_TIMEOUT = 1500
@@ -317,7 +317,7 @@ def _labels_clause(tag, got, I, keys=None, hh_nodes=()):
                 continue
             if k == "typesGH" and k not in src:
                 continue                                   # the H-H fallback
-            if k not in src or not ST.same_label(_tup(v) if k in ("typesGH", "neighbors") else v, _tup(src[k]) if k in ("typesGH", "neighbors") else src[k]):
+            if k not in src or not ST.same_label(v, src[k]):
                 return [dict(clause="atom-labels-unchanged", detail="%s: atom %r label %s is %r (%s), the ITS atom has %r (%s)"
                              % (tag, n, k, v, type(v).__name__, src.get(k, "<absent>"), type(src.get(k)).__name__))]
     return []
@@ -353,7 +353,7 @@ def oracle_S(case):
             bonds = None
         if bonds is not None:
             if {frozenset(e) for e in rc.edges} != set(bonds) or set(rc.nodes) != set(atoms):
-                fails.append(dict(clause="opt-centre-bonds", detail="%s: centre atoms %r bonds %r, expected atoms %r bonds %r (changed%s bonds, H-H bonds where the top-level element is the string 'H')"
+                fails.append(dict(clause="opt-centre-bonds", detail="%s: centre atoms %r bonds %r, expected atoms %r bonds %r (changed%s bonds, H-H bonds: element 'H' or the pair ('H', 'H'))"
                                   % (tag, sorted(rc.nodes), sorted(map(sorted, rc.edges)), sorted(atoms), sorted(map(sorted, bonds)), " or is_mtg" if keep else "")))
             else:
                 for n in rc.nodes:
@@ -362,6 +362,7 @@ def oracle_S(case):
                         break
         if not HS.graph_eq(I, _build_S(case)):
             fails.append(dict(clause="opt-input-mutated", detail="%s: get_rc changed its input graph" % tag))
+        fails += _store_twin_clause(case, tag, rc, keys, disc, keep)
         if fails:
             return fails[:3]
     I = _build_S(case)
@@ -376,6 +377,160 @@ def oracle_S(case):
         if fails:
             break
     return fails[:3]
+
+
+# ------------------------------------------------------------------ calling conventions (model/C02_Api.v): reaction dicts, direct find_nearest_neighbors
+
+def _mk_dict(D):
+    return {k: (E.to_nx(v["its"]) if isinstance(v, dict) else v) for k, v in D}
+
+
+def _call_ctx(case, data):
+    from synkit.Graph.Context.radius_expand import RadiusExpand
+    ik, ck, k, style = case["its_key"], case["ctx_key"], case["k"], case.get("style", "kw")
+    if "Ds" in case:
+        if style == "pos":
+            return RadiusExpand.paralle_context_extraction(data, ik, ck, 1, 0, k)
+        return RadiusExpand.paralle_context_extraction(data, n_knn=k, context_key=ck, its_key=ik)
+    if style == "pos":
+        return RadiusExpand.context_extraction(data, ik, ck, k)
+    if style == "default" and ik == "ITS" and ck == "K":
+        return RadiusExpand.context_extraction(data, n_knn=k)
+    return RadiusExpand.context_extraction(data, n_knn=k, context_key=ck, its_key=ik)
+
+
+def _obs_dict(d):
+    return [[E.elem_code(k), ([1, E._int(v)] if isinstance(v, int) and not isinstance(v, bool) else [0, E.obs_its(v)])] for k, v in d.items()]
+
+
+def impl_api(case):
+    from synkit.Graph.Context.radius_expand import RadiusExpand
+    from ..tok import S
+    if "nn" in case:
+        import networkx as nx
+        I = E.to_nx(case["I"])
+        out = []
+        for k in case["ks"]:
+            try:
+                out.append([S(sorted(RadiusExpand.find_nearest_neighbors(I, list(case["nn"]), k)))])
+            except nx.NetworkXError:
+                out.append([])
+        try:
+            first = [E.obs_its(RadiusExpand.extract_subgraph(I, list(RadiusExpand.find_nearest_neighbors(I, list(case["nn"]), case["ks"][0]))))]
+        except nx.NetworkXError:
+            first = []
+        return [out, first]
+    data = [_mk_dict(D) for D in case["Ds"]] if "Ds" in case else _mk_dict(case["D"])
+    try:
+        r = _call_ctx(case, data)
+    except (KeyError, AttributeError):
+        return []
+    return [[_obs_dict(d) for d in r]] if "Ds" in case else [_obs_dict(r)]
+
+
+def _coq_dict(D):
+    return "[" + "; ".join("(%d%%N, %s)" % (E.elem_code(k), ("DG %s" % E.coq_its(v["its"])) if isinstance(v, dict) else "DZ %s" % E.cZ(v)) for k, v in D) + "]"
+
+
+def coq_api(case):
+    if "nn" in case:
+        return "run_fnn %s [%s] [%s]" % (E.coq_its(case["I"]), "; ".join(E.cN(n) for n in case["nn"]), "; ".join("(%d)" % k for k in case["ks"]))
+    ik, ck = E.elem_code(case["its_key"]), E.elem_code(case["ctx_key"])
+    if "Ds" in case:
+        return "run_dicts [%s] %d%%N %d%%N (%d)" % ("; ".join(_coq_dict(D) for D in case["Ds"]), ik, ck, case["k"])
+    return "run_dict %s %d%%N %d%%N (%d)" % (_coq_dict(case["D"]), ik, ck, case["k"])
+
+
+def _centre_ref(V, cls):
+    el = {n: d["element"] for n, d in V.nodes(data=True)}
+    return {x for u, v, d in V.edges(data=True) if differs(d["order"], cls) or (el[u] == "H" and el[v] == "H") for x in (u, v)}
+
+
+def oracle_api(case):
+    """reaction dicts: the result has the input's keys in the input's order (+ context_key at the end when new), every other entry IS the
+    input's object, the input dict and its graphs are untouched, the context has exactly the atoms within k bonds of the centre (plain-set
+    reference on graphs of a recognised class); direct find_nearest_neighbors: the ball around ANY start atoms of the graph"""
+    from synkit.Graph.Context.radius_expand import RadiusExpand
+    fails = []
+    if "nn" in case:
+        I = E.to_nx(case["I"])
+        if any(n not in I for n in case["nn"]):
+            return []
+        for k in case["ks"]:
+            if k < 1:
+                continue
+            got = RadiusExpand.find_nearest_neighbors(I, list(case["nn"]), k)
+            want = _ball(I, case["nn"], k)
+            if set(got) != want:
+                fails.append(dict(clause="context-atoms", detail="find_nearest_neighbors(I, %r, %d) = %r, atoms within %d bonds %r" % (case["nn"], k, sorted(got), k, sorted(want))))
+        if not HS.graph_eq(I, E.to_nx(case["I"])):
+            fails.append(dict(clause="helper-input-mutated", detail="find_nearest_neighbors changed its input graph"))
+        return fails[:3]
+    Ds = case["Ds"] if "Ds" in case else [case["D"]]
+    data = [_mk_dict(D) for D in Ds]
+    before = [list(d.items()) for d in data]
+    try:
+        r = _call_ctx(case, data if "Ds" in case else data[0])
+    except (KeyError, AttributeError):
+        r = None
+    ik, ck, k = case["its_key"], case["ctx_key"], case["k"]
+    for d, b, D in zip(data, before, Ds):
+        if [x[0] for x in b] != list(d) or any(d[key] is not v for key, v in b) or any(isinstance(v, dict) and not HS.graph_eq(d[key], E.to_nx(v["its"])) for key, v in D):
+            fails.append(dict(clause="list-input-mutated", detail="context extraction changed an input dict (keys %r -> %r) or one of its graphs" % ([x[0] for x in b], list(d))))
+    if r is None:
+        return fails[:3]
+    rs = r if "Ds" in case else [r]
+    if len(rs) != len(data):
+        return [dict(clause="list-order", detail="%d results for %d input dicts" % (len(rs), len(data)))]
+    for i, (res, d) in enumerate(zip(rs, data)):
+        want_keys = list(d) + ([ck] if ck not in d else [])
+        if res is d or list(res) != want_keys:
+            fails.append(dict(clause="list-output-dict", detail="dict %d: result keys %r, expected %r (a new dict)" % (i, list(res), want_keys)))
+            continue
+        if any(res[key] is not d[key] for key in d if key != ck):
+            fails.append(dict(clause="list-output-dict", detail="dict %d: an entry other than %r is not the input's object" % (i, ck)))
+        V = d[ik]
+        cls = its_class(V)
+        if cls is not None and k >= 0:
+            want = _ball(V, _centre_ref(V, cls), k)
+            if set(res[ck].nodes) != want:
+                fails.append(dict(clause="context-atoms", detail="dict %d (its_key=%r, context_key=%r, n_knn=%d): context atoms %r, atoms within %d bonds of the centre %r"
+                                  % (i, ik, ck, k, sorted(res[ck].nodes), k, sorted(want))))
+    return fails[:3]
+
+
+
+PAIR_ATTRS = ("element", "aromatic", "hcount", "charge", "neighbors")
+
+
+def _store_twin_clause(case, tag, rc, keys, disc, keep):
+    """the centre does not depend on HOW the ITS stores its atom labels: get_rc of ITSConstruction(G, H, store=True) has the atoms and
+    the bonds (with attributes) of get_rc of ITSConstruction(G, H, store=False) under the same options, and every pair label of a centre
+    atom has the store=False label as its reactant side (theorem C02_rcS_construct).  Demanded when every atom has the same element on
+    both sides (true for every reaction; synthetic malformed pairs may differ, then "H" on one side only is no hydrogen)."""
+    from synkit.Graph.ITS.its_decompose import get_rc
+    if "sopts" not in case or "shist" in case:
+        return []
+    opts = case["sopts"]
+    o = dict(ST.DEFAULT_CONSTRUCT, api="construct") if opts.get("api") == "construct-defaults" else dict(opts)
+    if not o.get("store"):
+        return []
+    G, H = P1._graphs_nx(case)
+    IT = _build_S(case)
+    if any(not (isinstance(d.get("element"), tuple) and len(d["element"]) == 2 and d["element"][0] == d["element"][1]) for _, d in IT.nodes(data=True)):
+        return []
+    IF = E.call_construct(G, H, dict(o, store=False))
+    rcF = get_rc(IF, element_key=list(keys), disconnected=disc, keep_mtg=keep)
+    eT = {frozenset((u, v)): dict(d) for u, v, d in rc.edges(data=True)}
+    eF = {frozenset((u, v)): dict(d) for u, v, d in rcF.edges(data=True)}
+    if set(rc.nodes) != set(rcF.nodes) or eT != eF:
+        return [dict(clause="store-independent-centre", detail="%s: centre of the store=True ITS has atoms %r bonds %r, centre of the store=False ITS of the same "
+                     "graphs has atoms %r bonds %r" % (tag, sorted(rc.nodes), sorted(map(sorted, eT)), sorted(rcF.nodes), sorted(map(sorted, eF))))]
+    for n in rc.nodes:
+        a, b = rc.nodes[n], rcF.nodes[n]
+        if set(a) != set(b) or any((a[k][0] if k in PAIR_ATTRS else a[k]) != b[k] for k in a):
+            return [dict(clause="store-independent-centre", detail="%s: atom %r: store=True centre labels %r, store=False centre labels %r" % (tag, n, dict(a), dict(b)))]
+    return []
 
 
 def impl_wrap(case):
@@ -407,6 +562,8 @@ def impl(case):
     from ..tok import S
     if "S" in case or "sopts" in case:
         return impl_S(case)
+    if "api" in case:
+        return impl_api(case)
     if "hist" in case:
         return HS.run_history(case, False)[0]
     if "wrap" in case:
@@ -436,6 +593,8 @@ def coq_case(case):
     try:
         if "S" in case or "sopts" in case:
             return coq_S(case)
+        if "api" in case:
+            return coq_api(case)
         if "hist" in case:
             return HS.coq_history(case)
         if "wrap" in case:
@@ -557,7 +716,7 @@ def centre_clauses(I, cls="std"):
     else:
         for n in rc.nodes:
             for k in LABELS:
-                if k not in rc.nodes[n] or not ST.same_label(_tup(rc.nodes[n][k]), _tup(I.nodes[n][k])):
+                if k not in rc.nodes[n] or not ST.same_label(rc.nodes[n][k], I.nodes[n][k]):
                     fails.append(dict(clause="centre-atom-labels", detail="atom %r label %s: centre %r, ITS %r"
                                       % (n, k, rc.nodes[n].get(k, "<absent>"), I.nodes[n][k])))
                     break
@@ -625,6 +784,11 @@ def _iso_centres(rc1, rc2, pi=None):
 HH_FALLBACK = (("H", False, 0, 0, []), ("*", False, 0, 0, []))
 
 
+def _is_h(el):
+    """a hydrogen: the element label "H", or the (reactant, product) pair ("H", "H") of a store=True ITS"""
+    return (el == "H") if not isinstance(el, tuple) else (len(el) == 2 and el[0] == "H" and el[1] == "H")
+
+
 def _gh_eq(a, b):
     return _tup(a) == _tup(b)
 
@@ -638,7 +802,7 @@ def ref_centre(I, keys, disc, keep):
         std = d.get("standard_order")
         if (isinstance(std, (int, float)) and std != 0) or (keep and d.get("is_mtg", False)):
             inc[frozenset((u, v))] = d
-        elif el[u] == "H" and el[v] == "H":
+        elif _is_h(el[u]) and _is_h(el[v]):
             hh[frozenset((u, v))] = d
     bonds = {k: (tuple(d["order"]), d["standard_order"], d.get("is_mtg", False)) for k, d in list(inc.items()) + list(hh.items())}
     inc_atoms = {x for k in inc for x in k}
@@ -664,7 +828,7 @@ def ref_centre(I, keys, disc, keep):
 def _attrs_eq(got, want):
     if set(got) != set(want):
         return False
-    return all(ST.same_label(_tup(got[k]), _tup(want[k])) for k in want)
+    return all(ST.same_label(got[k], want[k]) for k in want)
 
 
 def oracle_x(case):
@@ -958,6 +1122,8 @@ def oracle(case):
     from synkit.Graph.ITS.its_decompose import get_rc
     if "S" in case or "sopts" in case:
         return oracle_S(case)
+    if "api" in case:
+        return oracle_api(case)
     if "hist" in case:
         return oracle_hist(case)
     if "wrap" in case:
@@ -999,13 +1165,15 @@ def oracle(case):
 
 def _special(case):
     return "X" in case or "Is" in case or "helpers" in case or bool(case.get("lre")) or "hist" in case or "wrap" in case or bool(case.get("raw")) \
-        or "S" in case or "sopts" in case
+        or "S" in case or "sopts" in case or "api" in case
 
 
 def nontrivial(case, obs):
     if "S" in case or "sopts" in case:
         # a centre atom carries a pair-valued label
         return "pair" in repr(case.get("S", "")) or any(o.get("store") for o in ([case["sopts"]] if "api" in case.get("sopts", {}) else list(case.get("sopts", {}).values())))
+    if "api" in case:
+        return isinstance(obs, list) and len(obs) > 0 and (len(obs) == 1 or bool(obs[1]))
     if "hist" in case:
         # the answers of two steps differ (the history is not a repetition of one value)
         return isinstance(obs, list) and len(obs) >= 2 and any(o != obs[0] for o in obs[1:])
@@ -1035,7 +1203,7 @@ def distribution(cases, obss):
     hist_ops = {}
     for c, o in zip(cases, obss):
         kinds[c.get("kind", "?")] = kinds.get(c.get("kind", "?"), 0) + 1
-        if "S" in c or "sopts" in c:
+        if "S" in c or "sopts" in c or "api" in c:
             continue
         if "hist" in c:
             for st in c["hist"]:
@@ -1079,7 +1247,7 @@ def distribution(cases, obss):
 
 
 def shrink(case, fl):
-    if "hist" in case or "wrap" in case or case.get("raw") or "S" in case or "sopts" in case:
+    if "hist" in case or "wrap" in case or case.get("raw") or "S" in case or "sopts" in case or "api" in case:
         return case
     if "X" in case:
         cur = case
@@ -1536,6 +1704,60 @@ def gen_store(rng, tier):
     return cases
 
 
+def gen_api(rng, tier):
+    """reaction DICTS through context_extraction / paralle_context_extraction (key options, key order, an existing / the same context key,
+    missing ITS key, non-graph value), find_nearest_neighbors called directly with any start atoms (also atoms that are not in the graph,
+    n_knn <= 0), extract_k with n_knn < -1"""
+    q = tier == "quick"
+    cases = []
+    pool = [c["I"] for c in gen_random_its(rng, 80 if q else 300, "its-rand", maxn=8)]
+    for g in pool:
+        for e in g["edges"]:
+            e[2].pop("is_mtg", None)
+
+    def one_dict(ik):
+        ents = [[ik, {"its": rng.choice(pool)}]]
+        for key in rng.sample(["id", "note", "K", "ctx", "R-id", "its2"], rng.randint(0, 3)):
+            ents.append([key, {"its": rng.choice(pool)} if key == "its2" or rng.random() < 0.15 else rng.randint(-3, 99)])
+        rng.shuffle(ents)
+        return ents
+    for _ in range(150 if q else 800):
+        ik = rng.choice(("ITS", "ITS", "its", "G"))
+        D = one_dict(ik)
+        z = rng.random()
+        ck = rng.choice(("K", "K", "ctx", "id")) if z < 0.85 else (ik if z < 0.93 else rng.choice([e[0] for e in D]))
+        c = dict(kind="api-dict", api=True, D=D, its_key=ik, ctx_key=ck, k=rng.choice((0, 1, 1, 2, 3, -1, -2)), style=rng.choice(("kw", "pos", "default")))
+        z = rng.random()
+        if z < 0.08:
+            c["its_key"] = "missing"
+        elif z < 0.14:
+            ints = [e[0] for e in D if not isinstance(e[1], dict)]
+            if ints:
+                c["its_key"] = rng.choice(ints)
+        if c["k"] == -1:
+            c["D"] = [[key, ({"its": X.canon(v["its"])} if isinstance(v, dict) else v)] for key, v in D]
+        cases.append(c)
+    for _ in range(40 if q else 200):
+        ik = rng.choice(("ITS", "its"))
+        Ds = [one_dict(ik) for _ in range(rng.randint(0, 3))]
+        if Ds and rng.random() < 0.15:
+            Ds[rng.randrange(len(Ds))] = [["id", 3]]
+        cases.append(dict(kind="api-dicts", api=True, Ds=Ds, its_key=ik, ctx_key=rng.choice(("K", "ctx", ik)), k=rng.choice((0, 1, 2)), style=rng.choice(("kw", "pos"))))
+    for _ in range(120 if q else 600):
+        g = rng.choice(pool)
+        ids = [n for n, _ in g["nodes"]]
+        seeds = rng.sample(ids, rng.randint(0, min(3, len(ids))))
+        if rng.random() < 0.25:
+            seeds.insert(rng.randint(0, len(seeds)), rng.choice((77, 1000, 0)))
+        if seeds and rng.random() < 0.2:
+            seeds.append(seeds[0])
+        ks = rng.sample([-2, -1, 0, 1, 2, 3, 5], 3)
+        cases.append(dict(kind="api-nn", api=True, I=g, nn=seeds, ks=ks))
+    for c in gen_random_its(rng, 60 if q else 300, "its-rand", maxn=9):
+        cases.append(dict(kind="help-neg", I=c["I"], helpers=[rng.choice((-2, -3, -17)), 0, 1]))
+    return cases
+
+
 def gen_cases(tier, rng):
     exh = gen_exhaustive_its()
     cases = list(exh)
@@ -1555,4 +1777,5 @@ def gen_cases(tier, rng):
     cases += gen_degenerate()
     cases += gen_huge(rng, tier)
     cases += gen_store(rng, tier)
+    cases += gen_api(rng, tier)
     return cases
